@@ -78,9 +78,7 @@ Print Assumptions string_roundtrip_partial.
 
 Theorem string_roundtrip_partial_std : forall s,
   esc_known QUOTE s = false -> sql_lex std_sql (emit_string s) = [TString s].
-Proof.
-  intros s H. apply string_roundtrip_ok. unfold str_ok. rewrite H. reflexivity.
-Qed.
+Proof. exact string_roundtrip_std. Qed.
 Print Assumptions string_roundtrip_partial_std.
 
 (* no literal content changes the structure of the surrounding statement: in ANY context that ends
@@ -103,7 +101,7 @@ Print Assumptions emit_string_is_doubling.
 Theorem string_roundtrip_fixed : forall s pre suf,
   closed_prefix std_sql pre = true -> starts_with 39 suf = false ->
   sql_lex std_sql (pre ++ emit_string_fixed s ++ suf) = sql_lex std_sql pre ++ TString s :: sql_lex std_sql suf.
-Proof. intros s pre suf. apply string_fixed_in_context. reflexivity. Qed.
+Proof. exact string_fixed_std_in_context. Qed.
 Print Assumptions string_roundtrip_fixed.
 
 (* every string value has a PRQL spelling that denotes it, and (outside the known class) the SQL
@@ -112,12 +110,12 @@ Theorem string_literal_end_to_end : forall d v, str_ok d v = true ->
   exists src, quoted_string tbl true src = Some (v, []) /\
               emit_literal false (LString v) = Some (emit_string v) /\
               sql_lex d (emit_string v) = [TString v].
-Proof. intros d v. exact (LiteralProofs.string_literal_end_to_end tbl d v c08_escape_table_ok). Qed.
+Proof. exact (fun d v => LiteralProofs.string_literal_end_to_end tbl d v c08_escape_table_ok). Qed.
 Print Assumptions string_literal_end_to_end.
 
 Theorem prql_string_expressible : forall v rest, starts_with 34 rest = false ->
   quoted_string tbl true (34 :: spell v ++ 34 :: rest) = Some (v, rest).
-Proof. intros v rest. exact (spell_roundtrip tbl v rest c08_escape_table_ok). Qed.
+Proof. exact (fun v rest => spell_roundtrip tbl v rest c08_escape_table_ok). Qed.
 Print Assumptions prql_string_expressible.
 
 Theorem raw_string_value : forall v rest, forallb raw_char_ok v = true ->
@@ -164,10 +162,7 @@ Proof. exact lex_number_underscore. Qed.
 Print Assumptions number_underscore_value.
 
 Theorem based_number_value : forall row s, In row rows -> based_number row s = based_number_raw row s.
-Proof.
-  intros row s Hin. apply based_no_overflow.
-  pose proof c08_based_rows_fit as F. rewrite forallb_forall in F. exact (F row Hin).
-Qed.
+Proof. exact (based_rows_no_overflow rows c08_based_rows_fit). Qed.
 Print Assumptions based_number_value.
 
 Theorem bool_roundtrip : forall d b, sql_lex d (emit_bool b) = [TWord (emit_bool b)].
